@@ -15,7 +15,7 @@
 EXTENDS Scenarios
 
 TargetKinds == {"local", "aux1", "aux2", "aux3", "trans", "selfrec", "mutual", "arrayself", "mapself",
-                "auxarrayself", "anonprop", "anonitems", "anonallof", "sharedparam", "sharedresp", "diamond"}
+                "auxarrayself", "anonprop", "anonitems", "anonallof", "anonsibling", "sharedparam", "sharedresp", "diamond"}
 Shapes      == {"prim", "object", "arrayref", "tuple", "allof", "map", "nested", "ptrarray", "ref"}
 HolderKinds == {"prop", "items", "tuple", "addprops", "additems", "allof", "alias", "opbody", "pathbody",
                 "code", "default", "sharedparam", "sharedresp", "nested", "opnested", "opitems",
@@ -25,7 +25,7 @@ SecondKinds == {"none", "code", "prop2", "same"}
 Collisions  == {"none", "exact", "case", "twoimports"}
 
 AuxTargets  == {"aux1", "aux2", "aux3", "trans", "selfrec", "mutual", "auxarrayself", "diamond"}
-AnonTargets == {"anonprop", "anonitems", "anonallof"}
+AnonTargets == {"anonprop", "anonitems", "anonallof", "anonsibling"}
 SharedPtrTargets == {"sharedparam", "sharedresp"}
 
 Str == Leaf("string")
@@ -84,6 +84,10 @@ TargetOf(t, s) ==
                        params |-> <<>>, resps |-> <<>>]
     [] t = "anonprop" -> [ref |-> <<"root", "definitions", "N_1", "properties", "N_3">>,
                        rootdefs |-> [N_1 |-> ObjP([N_3 |-> Body(s, HelperIn("root")), N_4 |-> Int]), N_7 |-> HelperDef],
+                       aux |-> <<>>, params |-> <<>>, resps |-> <<>>]
+    \* the pointer's target N_3 has a COMPLEX sibling N_4 (the harness may spell N_3 as N_4's name + a suffix: keys that are string prefixes)
+    [] t = "anonsibling" -> [ref |-> <<"root", "definitions", "N_1", "properties", "N_3">>,
+                       rootdefs |-> [N_1 |-> ObjP([N_3 |-> Body(s, HelperIn("root")), N_4 |-> ObjP([N_19 |-> Str])]), N_7 |-> HelperDef],
                        aux |-> <<>>, params |-> <<>>, resps |-> <<>>]
     [] t = "anonitems" -> [ref |-> <<"root", "definitions", "N_1", "items">>,
                        rootdefs |-> [N_1 |-> Mk([type |-> "array"], [items |-> Body(s, HelperIn("root"))]), N_7 |-> HelperDef],
